@@ -93,6 +93,12 @@ def step_compare(run, c, obs_list, key, idmap=None, tol_scale=1.0, warmup=False,
         run.skip('reduced system singular / ill-conditioned (not well-posed)')
         return None
     g = (builder or GC.build_graph)(c, idmap)
+    if run.replayed % 4 == 2 and len(g._vertices) >= 3:
+        # History dimension: after construction the caller re-orders the tail of the vertex list it handed over (the Graph keeps that very list
+        # object).  Where a vertex's unknowns sit in the normal equations was settled at construction and must not be re-derived from positions.
+        lst = g._vertices
+        lst[-1], lst[-2] = lst[-2], lst[-1]
+        run.notes['vertex_list_reordered_after_construction'] = run.notes.get('vertex_list_reordered_after_construction', 0) + 1
     info_scale = 1.0
     if builder is None and run.replayed % 3 == 1:
         # the Gauss-Newton step does not depend on a common positive factor of all information matrices (exact powers of two)
@@ -201,6 +207,7 @@ def step_compare(run, c, obs_list, key, idmap=None, tol_scale=1.0, warmup=False,
 
 
 def check(run, cases=None):
+    cases_given = cases
     cases = cases if cases is not None else gen(run.tier, run.seed)
     pairs = evaluate(run, cases, 'MC_C03')
     rnd = random.Random(run.seed)
@@ -230,6 +237,9 @@ def check(run, cases=None):
     run.notes['features_covered'] = feats
     if min(feats.values()) == 0:
         raise RuntimeError('vacuity guard: a feature of the quantifier was never generated: %r' % feats)
+    if cases_given is None:
+        from . import c04
+        c04.large_tree(run, one_step=True)       # size dimension: thousands of vertices, exact step known in closed form
     run.rule = ('lattice graphs of 2-8 vertices (R2, R3, SE2+R2, SE3+R3, mixed dimensionality), edges naming vertices in either order, parallel edges, '
                 'landmark edges with rotated offsets, unary/binary/ternary custom edges with numerical Jacobians, random fixed subsets, fix_first_pose T/F, '
                 'permuted vertex lists, four id maps (dense, negative, > 2^32, descending); TLC assembles the reduced normal equations exactly (H symmetric '
